@@ -18,8 +18,19 @@ SimCases == { [Base(m) EXCEPT !.a1 = a1, !.a2 = a2, !.theta = th, !.G = g, !.H0 
 PcCases == { [Base("PC") EXCEPT !.a1 = a1, !.theta = th, !.l1 = l1, !.l2 = l2, !.r = r, !.G = g, !.H0 = RInt(h0), !.B0 = RInt(b0)] :
                 a1 \in {Half, ThreeQ}, th \in {Quarter, Half}, l1 \in {RInt(2), RInt(4)}, l2 \in {RZero, R(1, 8)},
                 r \in {RFlat, RUp}, g \in {G20, GStep}, h0 \in {0, 64}, b0 \in {0, 32} }
+\* corners of the admissible parameter space: a zero tax rate, zero interest, a zero portfolio slope, a zero propensity
+\* to consume out of wealth, no government spending at all (with and without inherited money)
+GZero == << RInt(0), RInt(0), RInt(0), RInt(0) >>
+RNil == << RZero, RZero, RZero, RZero, RZero >>
+Corners == { [Base(m) EXCEPT !.theta = RZero, !.H0 = h0] : m \in {"SIM", "SIMEX1", "PC"}, h0 \in {RZero, RInt(16)} }
+      \cup { [Base(m) EXCEPT !.G = GZero, !.H0 = RInt(16)] : m \in {"SIM", "SIMEX1", "PC"} }
+      \cup { [Base(m) EXCEPT !.a2 = RZero, !.H0 = RInt(16)] : m \in {"SIM", "SIMEX1", "PC"} }
+      \cup { [Base("PC") EXCEPT !.r = RNil, !.H0 = RInt(64), !.B0 = RInt(32)],
+             [Base("PC") EXCEPT !.l1 = RZero, !.r = RUp, !.H0 = RInt(64), !.B0 = RInt(32)],
+             [Base("PC") EXCEPT !.l0 = RZero, !.l1 = RZero, !.H0 = RInt(64)],
+             [Base("PC") EXCEPT !.theta = RZero, !.r = RUp, !.H0 = RInt(64), !.B0 = RInt(32)] }
 \* SIM ignores YD0: drop the duplicates
-MCCases == { x \in SimCases : x.model = "SIMEX1" \/ x.YD0 = RZero } \cup { x \in PcCases : x.B0[1] <= x.H0[1] }
+MCCases == Corners \cup { x \in SimCases : x.model = "SIMEX1" \/ x.YD0 = RZero } \cup { x \in PcCases : x.B0[1] <= x.H0[1] }
 
 \* thorough: a wider grid at the same horizon (horizon 4 overflows TLC's 32-bit integers on parts of the grid)
 SimBig == { [Base(m) EXCEPT !.a1 = a1, !.a2 = a2, !.theta = th, !.G = g, !.H0 = h0, !.YD0 = yd0] :
@@ -28,7 +39,7 @@ SimBig == { [Base(m) EXCEPT !.a1 = a1, !.a2 = a2, !.theta = th, !.G = g, !.H0 = 
 PcBig == { [Base("PC") EXCEPT !.a1 = a1, !.a2 = a2, !.theta = th, !.l0 = l0, !.l1 = l1, !.l2 = l2, !.r = r, !.G = g, !.H0 = RInt(h0), !.B0 = RInt(b0)] :
                 a1 \in {Half, ThreeQ}, a2 \in {Quarter, Half}, th \in {Quarter, Half}, l0 \in {Half, Quarter}, l1 \in {RInt(2), RInt(4)},
                 l2 \in {RZero, R(1, 8)}, r \in {RFlat, RUp}, g \in {G20, GStep}, h0 \in {0, 64}, b0 \in {0, 32} }
-MCBig == { x \in SimBig : x.model = "SIMEX1" \/ x.YD0 = RZero } \cup { x \in PcBig : x.B0[1] <= x.H0[1] }
+MCBig == Corners \cup { x \in SimBig : x.model = "SIMEX1" \/ x.YD0 = RZero } \cup { x \in PcBig : x.B0[1] <= x.H0[1] }
 
 Emit == (k = Horizon) => PrintT(<< "BEH", ToJson([c |-> c, hist |-> hist]) >>)
 =============================================================================
